@@ -669,11 +669,19 @@ KERNEL_GROUPS['KernelsExons'] = [
     ('uint_range.py', 'UIntRangeSortedList.get_before', 'k_exons_get_before', 'list:exon'),
     ('uint_range.py', 'UIntRangeSortedList.get_after', 'k_exons_get_after', 'list:exon'),
 ]
+KERNEL_GROUPS['KernelsCounts'] = [
+    # OligoGenerationInfo: the counters of the length filter (methods that assign fields of self return the new record)
+    ('oligo_generation_info.py', 'OligoGenerationInfo.short_oligo_n', 'k_info_short_oligo_n', 'counts'),
+    ('oligo_generation_info.py', 'OligoGenerationInfo.long_oligo_n', 'k_info_long_oligo_n', 'counts'),
+    ('oligo_generation_info.py', 'OligoGenerationInfo.out_of_range_n', 'k_info_out_of_range_n', 'counts'),
+    ('oligo_generation_info.py', 'OligoGenerationInfo.update', 'k_info_update', 'counts'),
+    ('oligo_generation_info.py', 'OligoGenerationInfo.eval_in_range', 'k_info_eval_in_range', 'counts'),
+]
 KERNEL_EXTRA_SOURCES = {'KernelsMave': ['enums.py'], 'KernelsNames': ['enums.py', 'constants.py'], 'KernelsLift': ['enums.py'], 'KernelsGpo': ['enums.py']}
 KERNEL_CONSTS = {'KernelsNames': ('REVCOMP_OLIGO_NAME_SUFFIX',)}
 KERNEL_IMPORTS = {'KernelsTargeton': ' Model.Targeton', 'KernelsMave': ' Model.Seq Model.Vcf Model.Mave Model.PyStr',
                   'KernelsNames': ' Model.Seq Model.Vcf Model.Mave Model.PyStr', 'KernelsLift': ' Model.Seq Model.Vcf Model.Gpo',
-                  'KernelsGpo': ' Model.Seq Model.Vcf Model.Gpo Model.PyStr Model.PyLoop', 'KernelsExons': ' Model.PyLoop'}
+                  'KernelsGpo': ' Model.Seq Model.Vcf Model.Gpo Model.PyStr Model.PyLoop', 'KernelsExons': ' Model.PyLoop', 'KernelsCounts': ' Model.Unique Model.PyLoop'}
 
 
 def _kernel_extractor(name):
